@@ -298,9 +298,15 @@ RefreshAct(w) ==
      /\ UpdS(r.steps, hv, net, [ev |-> "refresh", w |-> w])
 
 \* cancel by log id (of the active account) or by slate id; refused cancels included
+\* (kcls: the kind of entry the request names, judged after the refresh cancel_tx runs first - covered when behaviours are selected)
+CancelCls(w, id, sl) ==
+  LET s1 == RefreshLite(st, w)
+      m == CancelMatches(s1, w, [id |-> id, sl |-> sl]) IN
+  IF m = {} THEN "none" ELSE IF Cardinality(m) > 1 THEN "several"
+  ELSE LET e == s1.w[w].txs[CHOOSE t \in m : TRUE] IN e.ty \o (IF e.conf THEN ":confirmed" ELSE ":unconfirmed")
 CancelAct(w, id, sl) ==
   /\ LET r == Cancel(st, w, [id |-> id, sl |-> sl], TRUE) IN
-     UpdS(r.steps, hv, net, [ev |-> "cancel", w |-> w, id |-> id, by |-> sl, mok |-> (r.res = "ok")])
+     UpdS(r.steps, hv, net, [ev |-> "cancel", w |-> w, id |-> id, by |-> sl, mok |-> (r.res = "ok"), kcls |-> CancelCls(w, id, sl)])
 
 \* accounts on w1
 CreateAccountAct ==
